@@ -127,11 +127,12 @@ REGISTRY = {
                       'any arguments => only ValueError/IndexError/TypeError '
                       'may escape, WF holds afterwards and every read API '
                       'agrees with the raw grid" checked on every small '
-                      'well-formed circuit; bounded stand-in, not a proof',
+                      'well-formed circuit; bounded stand-in, not a proof; the index arithmetic of the leaf helpers (is_cycle / qudit / point_in_range, normalize_point, is_point_idle, is_cycle_unoccupied, find_available_cycle) is proved for all inputs by pyvc',
         'level_note': 'bounded: every well-formed circuit over the stated alphabet on 2-3 qudits with <= 2 cycles (quick; the largest layer sampled with VERIF_SEED) / up to 4 qudits and 3 cycles (thorough, exhaustive) times every argument value incl. out-of-range and negative indices; histories follow by induction only while intermediate circuits stay inside the scope; no unbounded proof of the 100-line mutators',
         'parts': [
             {'kind': 'custom', 'module': 'pybound.circ_checks',
              'func': 'run_c05'},
+            {'kind': 'pyvc', 'module': 'contracts.c05'},
         ],
         'rule': 'pre-states: all grids whose cycles are non-empty sets of '
                 'disjoint operations over {X, RZ, CNOT in both orders on '
@@ -357,7 +358,12 @@ REGISTRY = {
                       'result has the input timelines and parameters, every '
                       'block is at most max(block size, widest gate) wide, '
                       'no placeholder is inside a block, the result is '
-                      'well-formed; bounded stand-in, nothing is proved',
+                      'well-formed; bounded stand-in.  Proved for all inputs '
+                      '(pyvc): Bin.add_op keeps the bin\'s tables consistent '
+                      '(distinct qudits, start / end tables exactly over '
+                      'them, active qudits among them), records the '
+                      'operation last and starts every new qudit at the '
+                      'operation\'s cycle',
         'level_note': 'QuickPartitioner.run, the scan/greedy/clustering '
                       'loops are far outside the pyvc subset; the longest '
                       'layer of each scope is sampled (VERIF_SEED) in the '
@@ -366,6 +372,7 @@ REGISTRY = {
                       'QuickPartitioner are listed as known findings',
         'parts': [
             {'kind': 'custom', 'module': 'pybound.c08_checks'},
+            {'kind': 'pyvc', 'module': 'contracts.c08'},
         ],
         'rule': 'one evaluation = one partitioner on one circuit; every '
                 'evaluation is non-trivial (the pass rebuilds the circuit)',
@@ -384,7 +391,13 @@ REGISTRY = {
                       'placement, widens the circuit through it and resets '
                       'the placement to the identity; SetModelPass installs '
                       'the model and the trivial placement or raises with '
-                      'nothing changed.  Bounded: [SetModel, placement, '
+                      'nothing changed; GeneralizedSabreRoutingPass.run '
+                      'composes final_mapping with the map its forward pass '
+                      'ends with (never overwrites it) and the layout pass '
+                      'moves the placement by the map its last backward pass '
+                      'ends with, both leaving the other mappings alone '
+                      '(forward/backward pass and _apply_perm assumed: they '
+                      'keep pi a permutation).  Bounded: [SetModel, placement, '
                       'SABRE layout, SABRE routing, ApplyPlacement] on every '
                       'small circuit x connected graph of the stated scopes '
                       'satisfies the whole property (coupling respected, '
@@ -613,5 +626,43 @@ REGISTRY = {
                 'obligations of the three bookkeeping functions',
         'explanation': 'bounded pipeline contract + proved bookkeeping',
         'trusted_base': ['contracts/passes_prog.py opaque-object model'],
+    },
+    'C10': {
+        'level': 'other',
+        'engine': 'pybound',
+        'technique': 'bounded native contracts per pass configuration (45 '
+                     'rows: rule passes, single-qudit decompositions, '
+                     'conversion and utility passes, gate removal, two-qudit '
+                     'retargeting, QSD / Block-ZXZ / diagonal extraction / '
+                     'Walsh / QFAST / QPredict), passes run on a synchronous '
+                     'runtime stand-in',
+        'level_text': 'for a few seeded circuits of each pass\'s domain '
+                      '(widths 1-4, parameters incl. 0, pi/2, pi and generic '
+                      'values, qutrits where supported): the unitary after '
+                      'the pass equals the one before up to global phase '
+                      '(1e-9 for structural and rule-based passes, 1e-6 for '
+                      'numerical ones) and the advertised postcondition '
+                      'holds: the source gate is gone and only the requested '
+                      'entangler is introduced, single-qudit decompositions '
+                      'emit exactly the requested gates (also when the '
+                      'choice comes from the model\'s gate set), removal '
+                      'passes never add operations or gate kinds, structural '
+                      'passes keep every operation, decompositions leave no '
+                      'VariableUnitaryGate wider than asked; bounded and '
+                      'sampled, nothing is proved',
+        'level_note': 'the acceptance guards of the numerical passes were '
+                      'planned as opaque-mode proofs; the passes build their '
+                      'candidates through the runtime (await '
+                      'get_runtime().map / submit) inside loops, which the '
+                      'pyvc subset does not cover, so this property is '
+                      'bounded only; LEAP / QSearch / PAS belong to C03; one '
+                      'known finding (ExtractDiagonalPass merging across '
+                      'locations)',
+        'parts': [
+            {'kind': 'custom', 'module': 'pybound.c10_checks'},
+        ],
+        'rule': 'one evaluation = one pass (or short pipeline) on one '
+                'seeded circuit',
+        'explanation': 'bounded native pre/post contract per pass',
     },
 }
